@@ -153,8 +153,20 @@ def main():
             # converged after ONE iteration with an O(1) error.  Such runs are reported apart.
             z = (torch.vdot(v, m @ v) / torch.vdot(v, v)).item()
             in_f27 = res.iteration_count == 1 and not res.happy_breakdown and abs(z) > 3 and abs(cmath.exp(z) - 1) < 0.1
+            # open known finding F34: err2 = |expd[j+2,0]| * |A v_j| stands in for |A v_{j+1}|; when the start vector is
+            # close to the kernel of A (|A v_0| << |A v_1|) convergence is declared at the first iteration with an error
+            # of about |A v_0| |A v_1| / 2
+            in_f34 = False
+            if res.iteration_count == 1 and not res.happy_breakdown and dev > budget:
+                v0 = v / v.norm()
+                a0 = m @ v0
+                w0 = a0 - torch.vdot(v0, a0) * v0
+                if w0.norm().item() > 0:
+                    in_f34 = a0.norm().item() < 0.05 * (m @ (w0 / w0.norm())).norm().item()
             if dev > budget and in_f27:
                 acc.setdefault("f27", []).append(where)
+            elif in_f34:
+                acc.setdefault("f34", []).append(where)
             elif budget < dev <= 3 * budget:
                 # open known finding F28: for operators of large norm the unchanged code exceeds the property's bound
                 # (10 tol |v|) marginally, by up to ~1.1x.  Runs between 1x and 3x the bound are reported apart; the
@@ -196,6 +208,20 @@ def main():
               + (f"; {len(acc.get('f27', []))} sampled runs of the same kind" if acc.get("f27") else ""))
     elif acc.get("f27"):
         print(f"  KNOWN-FINDING-F27-INPUT-FAILS: {len(acc['f27'])} sampled runs (first: {acc['f27'][0]})")
+    # the fixed F34 input (always run): a Hermitian 4-level operator with a zero eigenvalue, start vector within 1e-5 of
+    # its kernel, tolerance 1e-8
+    h34 = torch.tensor([[0.0, 0.0, 0.0, 0.0], [0.0, 3.0, 1.0, 0.5], [0.0, 1.0, -4.0, 2.0], [0.0, 0.5, 2.0, 5.0]], dtype=dt)
+    m34 = -1j * h34
+    v34 = torch.tensor([1.0, 1e-5, -2e-5, 1e-5], dtype=dt)
+    r34 = mod.krylov_exp_impl(lambda x: m34 @ x, v34.clone(), is_hermitian=True, exp_tolerance=1e-8, norm_tolerance=1e-8,
+                              max_krylov_dim=30)
+    d34 = (r34.result - torch.linalg.matrix_exp(m34) @ v34).norm().item()
+    if r34.converged and d34 > 10 * 1e-8 * v34.norm().item():
+        print(f"  KNOWN-FINDING-F34-INPUT-FAILS: -iH on 4 levels, H with a zero eigenvalue, start vector within 2.4e-5 of its "
+              f"kernel, tolerance 1e-8: converged after {r34.iteration_count} iteration(s) with |result - exp(A)v| = {d34:.3g}"
+              + (f"; {len(acc.get('f34', []))} sampled runs of the same kind" if acc.get("f34") else ""))
+    elif acc.get("f34"):
+        print(f"  KNOWN-FINDING-F34-INPUT-FAILS: {len(acc['f34'])} sampled runs (first: {acc['f34'][0]})")
     f28 = os.path.join(os.path.dirname(os.path.abspath(__file__)), "data", "c07_f28.json")
     if os.path.exists(f28):
         d = json.load(open(f28))
